@@ -102,8 +102,37 @@ func init() {
 				sort.Slice(ms, func(i, j int) bool { return ms[i].Name() < ms[j].Name() })
 				all := map[string]bool{}
 				per := map[*ssa.Function]map[string]bool{}
+				inFam := map[*ssa.Function]bool{}
 				for _, m := range ms {
+					inFam[m] = true
 					per[m] = reads(m)
+				}
+				// a variant that hands the work to a sibling on its own receiver (XAt = XAtWithState(h, at, nil))
+				// consults what the sibling consults: reads are inherited along such calls, to a fixpoint
+				for changed := true; changed; {
+					changed = false
+					for _, m := range ms {
+						for _, b := range m.Blocks {
+							for _, in := range b.Instrs {
+								c, ok := in.(ssa.CallInstruction)
+								if !ok {
+									continue
+								}
+								g := c.Common().StaticCallee()
+								if g == nil || g == m || !inFam[g] || len(c.Common().Args) == 0 || len(m.Params) == 0 || c.Common().Args[0] != ssa.Value(m.Params[0]) {
+									continue
+								}
+								for f := range per[g] {
+									if !per[m][f] {
+										per[m][f] = true
+										changed = true
+									}
+								}
+							}
+						}
+					}
+				}
+				for _, m := range ms {
 					for f := range per[m] {
 						all[f] = true
 					}
